@@ -228,7 +228,13 @@ Proof.
     intros H. injection H as <-. rewrite (compress_fields_spec _ _ _ _ E). cbn [bind].
     now rewrite <- app_assoc.
   - intros H. now injection H as <-.
+  - discriminate.
 Qed.
+
+(* what the code does with a fragmentation rule: neither branch of compress applies, the result is the
+   bare rule id (no residue, no payload), for every packet descriptor and direction *)
+Theorem compress_fragmentation pd r d : rule_nature r = Fragmentation -> compress pd r d = Ok (rule_id r).
+Proof. unfold compress. intros ->. reflexivity. Qed.
 
 (* ---- mappings: the reverse dictionary ---------------------------------------------------------- *)
 Definition swap (kv : bits * bits) : bits * bits := (snd kv, fst kv).
